@@ -400,6 +400,57 @@ def r21n(F):
     return r
 
 
+def r21q(F):
+    r = RuleResult("R21q", "one fitting candidate is enough",
+                   "a shape known as one of several candidates (a select result, the element of a mixed list) is narrowed against "
+                   "another shape by trying every candidate: when at least one of them fits, no type error may come out - "
+                   "evaluated over the MIR with the result of one candidate's comparison forced to a fitting shape and all "
+                   "others left unknown", floor=2)
+    from .. import absint as AI
+    name = SHAPE + "::narrow_cached"
+    fn = F.fn(name)
+    need(fn is not None, "Shape::narrow_cached not found")
+    # the candidate loops: closures (or loops) of narrow_cached that call narrow_cached on an element of a candidate list
+    sites = []
+    for n in sorted(F.fns):
+        if n.startswith(name + "::{closure"):
+            for b, t in F.fns[n].calls():
+                if callee(t) == name:
+                    sites.append((n, b))
+    need(sites, "narrow_cached: no candidate-by-candidate comparison found in a closure (idiom not recognised)")
+    terr = set()
+    for b, j, pl, rv, m in fn.assigns():
+        if rv["k"] == "agg" and rv.get("adt") == SHAPE and rv.get("variant") == "TypeErr":
+            terr.add(b)
+    need(terr, "narrow_cached builds no TypeErr")
+    fit = ("e", SHAPE, "Int", ())
+    for i, site in enumerate(sites):
+        # one side is known to be a candidate list (either side: the comparison is written out for both)
+        cands = ("e", SHAPE, "Narrowed", (("0", ("e", "ucglib::ast::NarrowedShape", None, (("types", ("e", NARROWING, "Narrowed", ())),))),))
+        sim = res = None
+        for side in (1, 2):
+            sim = AI.Sim(F, site=site, forced=fit, depth=3, opaque={name})
+            args = [AI.U] * fn.nargs
+            args[side - 1] = ("r", (side, ("*",)))
+            try:
+                res = sim.run(fn, args, init={(side, ("*",)): cands})
+            except AI.Lossy:
+                need(False, "narrow_cached: state space too large for the evaluation")
+            if any(x[0] for x in res):
+                break
+        need(not sim.lossy, "narrow_cached: the candidate's result disappears into %s (not modelled)" % sorted({x[2] for x in sim.lossy})[:2])
+        fired = [x for x in res if x[0]]
+        need(fired, "narrow_cached: the evaluation never reaches the candidate comparison in %s" % site[0].split("::")[-1])
+        bad = sorted(b for (f, b) in sim.visited_fired if f == name and b in terr)
+        bad_ret = [x for x in fired if x[1][0] == "e" and x[1][2] == "TypeErr"]
+        ok = not bad and not bad_ret
+        r.inst("narrow_cached:candidates#%d:one-fits" % i, F.fns[site[0]].where(site[1]), ok,
+               "after a candidate fits no type error is built" if ok else
+               "a type error is built (%s) although one candidate fits: a value that is one of several kinds is rejected when ANY kind "
+               "mismatches instead of when ALL do" % (fn.where(bad[0]) if bad else "returned"))
+    return r
+
+
 from . import c09 as _c09
 
-RULES = [r21a, r21b, r21c, r21h, r21p, r21s, r21d, r21n, _c09.r25p]
+RULES = [r21a, r21b, r21c, r21h, r21p, r21s, r21d, r21n, r21q, _c09.r25p]
